@@ -589,6 +589,69 @@ def c03_activity_keeps_alive(params, tier):
     return [("c03_activity_keeps_alive:%s" % sorted(p.items()), b.h, U if p["usage"] else NU, {})]
 
 
+@family("C07", "C04")
+def c07_allocated_again(params, tier):
+    """All one-digit nameplates are held; an allocate is answered with a longer one; then one of the nine ends - by
+    its last release, by the deletion of its mailbox (close without release), by both sides leaving one after the
+    other, by expiry - and is gone from the list; the next allocate gets exactly that name again."""
+    if params is None:
+        return [{"how": h, "early": e, "usage": u, "listing": l}
+                for h in ("release", "close", "two-release", "two-close", "release-close", "expiry", "restart-release")
+                for e in (0, 1) for u in (0, 1) for l in ((1, 0) if u == 0 else (1,))]
+    p = params
+    b = HB()
+    holders = {}
+    for i in range(1, 10):
+        c = b.conn("app", "s1")
+        b.send(c, type="claim", nameplate="%d" % i)
+        holders[i] = c
+    v = 5
+    H = holders[v]
+    H2 = None
+    if p["how"] in ("two-release", "two-close"):
+        H2 = b.conn("app", "s2")
+        b.send(H2, type="claim", nameplate="%d" % v)
+    if p["early"]:
+        E = b.conn("app", "s7")
+        b.send(E, type="allocate")           # answered with two digits: the one-digit band is full
+    L = b.conn("app", "s4")
+    b.send(L, type="list")
+    how = p["how"]
+    if how == "release":
+        b.send(H, type="release")
+    elif how == "close":
+        b.send(H, type="close", mailbox=claimed(H), mood="happy")
+    elif how == "two-release":
+        b.send(H, type="release")
+        b.send(H2, type="release")
+    elif how == "two-close":
+        b.send(H, type="close", mailbox=claimed(H))
+        b.send(H2, type="close", mailbox=claimed(H))
+    elif how == "release-close":
+        b.send(H, type="release")
+        b.send(H, type="close", mailbox=claimed(H))
+    elif how == "restart-release":
+        b.restart()
+        H3 = b.conn("app", "s1")
+        b.send(H3, type="release", nameplate="%d" % v)
+        L = b.conn("app", "s4")
+    elif how == "expiry":
+        b.adv(420)
+        for i in range(1, 10):
+            if i != v:
+                c = b.conn("app", "s1")
+                b.send(c, type="claim", nameplate="%d" % i)
+        b.adv(300)
+    b.send(L, type="list")
+    A = b.conn("app", "s3")
+    b.send(A, type="allocate")
+    b.send(L, type="list")
+    B = b.conn("app", "s5")
+    b.send(B, type="allocate")               # full again: two digits
+    cfg = Config(usage=bool(p["usage"]), allow_list=bool(p["listing"]))
+    return [("c07_allocated_again:%s" % sorted(p.items()), b.h, cfg, {})]
+
+
 @family("C18", "C07")
 def c18_list_states(params, tier):
     """`list` asked while nameplates are in every state of their life: one holder, two, a refused third (crowded),
